@@ -63,6 +63,7 @@ type X struct {
 	// PostCheck runs after the bubble has ended (real time, real goroutines): used
 	// for checkers that must not run on the fake clock (porcupine).
 	PostCheck func()
+	post      bool // PostCheck is running (the bubble is over; teardown's mute no longer applies)
 
 	S        *simrt.Sched
 	dead     bool // scheduler reported deadlock / no-progress; run is over
@@ -78,7 +79,7 @@ func newX(sc string, src *choice.Source) *X {
 
 // Logf appends an event to the run's log (hashed always, kept when KeepLog).
 func (x *X) Logf(format string, a ...any) {
-	if simrt.Dying() {
+	if simrt.Dying() && !x.post {
 		// teardown releases every parked task at once; what their deferred code logs
 		// is unordered and not part of the run
 		return
@@ -112,7 +113,7 @@ func (x *X) Want(p string) bool { return x.Prop == "" || x.Prop == p }
 
 // Violate records an oracle failure.
 func (x *X) Violate(prop, fingerprint, format string, a ...any) {
-	if !x.Want(prop) || simrt.Dying() {
+	if !x.Want(prop) || (simrt.Dying() && !x.post) {
 		return
 	}
 	msg := fmt.Sprintf(format, a...)
@@ -184,6 +185,27 @@ func (x *X) RunTasks(onErr func(*simrt.SchedError)) bool {
 		return false
 	}
 	if e := x.S.Run(x.S.AllWorkloadDone, time.Time{}, false, microIdleBudget); e != nil {
+		x.schedErr(e, onErr)
+		return false
+	}
+	return true
+}
+
+// WaitFor runs the scheduler until the given tasks have finished (other tasks interleave
+// and may still be running afterwards).
+func (x *X) WaitFor(onErr func(*simrt.SchedError), ts ...*simrt.Task) bool {
+	if x.dead {
+		return false
+	}
+	done := func() bool {
+		for _, t := range ts {
+			if !t.Done() {
+				return false
+			}
+		}
+		return true
+	}
+	if e := x.S.Run(done, time.Time{}, false, microIdleBudget); e != nil {
 		x.schedErr(e, onErr)
 		return false
 	}
@@ -319,7 +341,9 @@ func execRun(t *testing.T, sc *Scenario, x *X) (out runOutcome) {
 	if x.PostCheck != nil {
 		pc := x.PostCheck
 		x.PostCheck = nil
+		x.post = true
 		pc()
+		x.post = false
 	}
 	return out
 }
